@@ -256,7 +256,7 @@ def decorate(prop, it, rng2):
     for case in it:
         if isinstance(case, dict) and "ops" in case and case.get("src") not in ("corpus-long",):
             n = len(case["ops"])
-            if not no_warm and n >= 2 and rng2.random() < 0.3:
+            if not no_warm and n >= 2 and "warm" not in case and rng2.random() < 0.3:
                 case["warm"] = rng2.randint(1, n - 1)
             if rng2.random() < 0.04 and case.get("ids", "int") == "int":
                 case["tnp"] = True
